@@ -24,6 +24,8 @@ pub fn generate_queries(
         .collect();
 
     samples.sort();
+    // The verifier works with the set of sampled indices: a repeated index is queried once.
+    samples.dedup();
     samples
 }
 
